@@ -17,6 +17,8 @@ type ival struct {
 	lo, hi *big.Int
 }
 
+var seenVars = map[string]int{} // every Int-typed variable that was ever printed (may occur in a define-fun)
+
 var (
 	defNames    = map[string]string{} // expr -> name
 	pendingDefs []string
@@ -106,6 +108,7 @@ func (t *Term) iv0() ival {
 		}
 		return ival{lit(c), c, c}
 	case "var":
+		seenVars[t.Name] = t.W
 		if r, ok := varRange[t.Name]; ok {
 			return ival{t.Name, r[0], r[1]}
 		}
